@@ -1053,6 +1053,30 @@ func produceCase(r *rand.Rand, path string, version int, codec int, rs []rec, to
 		return
 	}
 	emit(fmt.Sprintf("wire %s %s%s", tag, wb(set), z), want)
+	// byte-exact writer models (compressed: modulo the compressor's output, which is read off the bytes)
+	if totalSmall && (path == "proto" || path == "conn") && !(codec == 0 && version == 2) {
+		plain := ""
+		if codec != 0 {
+			start := map[int]int{1: 34, 2: 61}[version]
+			if d, err := decompressWith(codec, set[start:]); err == nil {
+				plain = wb(d)
+			}
+		}
+		switch {
+		case version == 1 && codec == 0 && path == "proto":
+			emit(fmt.Sprintf("wmodel1 0 %s", recsArg(rs, false)), wb(set))
+		case version == 1 && codec == 0:
+			emit(fmt.Sprintf("lmodel1 %s", recsArg(rs, true)), wb(set))
+		case version == 1 && path == "proto":
+			emit(fmt.Sprintf("wmodel1c %d %s %s", codec, recsArg(rs, false), plain), wb(set))
+		case version == 1:
+			emit(fmt.Sprintf("lmodel1c %d %s %s", codec, recsArg(rs, true), plain), wb(set))
+		case path == "proto":
+			emit(fmt.Sprintf("wmodel2c %d 0 %s %s", codec, recsArg(rs, false), plain), wb(set))
+		default:
+			emit(fmt.Sprintf("lmodel2c %d %s %s", codec, recsArg(rs, true), plain), wb(set))
+		}
+	}
 	if codec == 0 && version == 2 && totalSmall {
 		if path == "proto" {
 			emit(fmt.Sprintf("wmodel2 0 0 %s", recsArg(rs, false)), wb(set))
